@@ -192,16 +192,22 @@ def r10e(ck, fb):
                     'entry and answers each still-registered sender; Subscriber mutators touch both maps (listener, client_keys)')
     a = ck.body(CL + 'add', 'R10e')
     if a:
-        w_l = util.mut_calls_on_field(a, 'listener', r'HashMap::<K, V, S, A>::(insert|get_mut)$')
-        w_s = util.mut_calls_on_field(a, 'sender_map', r'HashMap::<K, V, S, A>::insert$')
-        w_t = util.mut_calls_on_field(a, 'time_listener', r'BTreeMap::<K, V, A>::(insert|get_mut)$')
-        ck.require(len(w_l) >= 2 and len(w_s) == 1 and len(w_t) >= 2, 'R10e', 'add:three-indexes', a.where(), 'ConfigListener::add does not update listener, sender_map and time_listener')
-        # the per-key registration is inside a loop over items
-        ins = [s for s in w_l if s.callee.endswith('insert')]
-        ck.require(bool(ins) and ins[0].bb in cfg.reach_from(a, [a.blocks[ins[0].bb]['t']['t']]), 'R10e', 'add:every-key', a.where(), 'not every key of the request is registered')
+        MAPOP = r'(HashMap::<K, V, S, A>|BTreeMap::<K, V, A>)::(insert|get_mut|entry)$'
+        w_l = util.mut_calls_on_field(a, 'listener', MAPOP)
+        w_s = util.mut_calls_on_field(a, 'sender_map', MAPOP)
+        w_t = util.mut_calls_on_field(a, 'time_listener', MAPOP)
+        ck.require(len(w_l) >= 1 and len(w_s) >= 1 and len(w_t) >= 1, 'R10e', 'add:three-indexes', a.where(), 'ConfigListener::add does not update listener, sender_map and time_listener')
+        # the per-key registration is inside the loop over items
+        inl = [s for s in w_l if s.bb in cfg.reach_from(a, [a.blocks[s.bb]['t']['t']])]
+        ck.require(bool(inl), 'R10e', 'add:every-key', a.where(), 'not every key of the request is registered')
         ck.require('version' in util.assigned_fields(a), 'R10e', 'add:new-version', a.where(), 'registrations share a version id')
-        if w_s:
-            ck.require(not any(x[0] in ('cmp', 'call') for x in cfg.guard_atoms(a, w_s[0].bb)), 'R10e', 'add:sender-stored-unconditionally', w_s[0].where(), 'the sender is stored only conditionally')
+        for s in w_s:
+            ck.require(not any(x[0] in ('cmp', 'call') for x in cfg.guard_atoms(a, s.bb)), 'R10e', 'add:sender-stored-unconditionally', s.where(), 'the sender is stored only conditionally')
+        # the sender stored is the one of this request, under the new version
+        ins = [s for s in w_s if s.callee.endswith('insert')]
+        if ins:
+            t = Taint(a, local_src=[3])
+            ck.require(t.op_tainted(ins[0].args[2]), 'R10e', 'add:stores-this-sender', ins[0].where(), 'the stored sender is not the request\'s sender')
     n = ck.body(CL + 'notify', 'R10e')
     if n:
         rm = util.mut_calls_on_field(n, 'listener', r'HashMap::<K, V, S, A>::remove$')
@@ -218,7 +224,7 @@ def r10e(ck, fb):
         if not b:
             continue
         touched = set()
-        for s in b.calls(r'(HashMap::<K, V, S, A>|HashSet::<T, S, A>)::(insert|remove|get_mut)$'):
+        for s in b.calls(r'(HashMap::<K, V, S, A>|HashSet::<T, S, A>)::(insert|remove|get_mut|entry)$'):
             rf = util.recv_fields(b, s)
             for f in rf:
                 if f in need:
